@@ -2,6 +2,7 @@ import HC.Proofs.Verify
 import HC.Proofs.Sound
 import HC.Proofs.UpgradeSound
 import HC.Proofs.UpgradeBytes
+import HC.Proofs.SeekSound
 /-!
 # C04 — forged or altered proofs never change what a replica believes
 
@@ -194,5 +195,29 @@ example (C : Crypto) (bs : Array Bytes) : ({} : Tree).changeset.roots = [] ∧ S
   intro d o n h
   have h40 : 0 < Spec.nodeSize := by decide
   simp [Tree.node?, File.read, File.empty, File.size, h40] at h
+
+/-- **hash-only proofs** (no block, no seek, no upgrade): what an accepted proof stores is the writer's — the requested
+    node carries the writer's hash, and if its size is the writer's, every other node of the section is the writer's node
+    (index, size, hash).  The sizes of the two bottom nodes are only authenticated as a sum: the one alteration C04's
+    quantifier excludes. -/
+theorem sound_hash (C : Crypto) (bs : Array Bytes) (t : Tree) (f : File) (pk : Bytes) (p : Proof) (hsec : Codec.DataHash)
+    (cs : Changeset) (hb : p.block = none) (hh : p.hash = some hsec) (hs : p.seek = none) (hu : p.upgrade = none)
+    (hcan : hsec.index < 2 ^ 64) (hauth : Sound.StoreAuthentic C bs t f) (hv : t.verifyProof C f p pk = .ok cs) :
+    Sound.Collision C ∨ ∃ n0 rest d o, hsec.nodes = n0 :: rest ∧ hsec.index = Flat.index d o ∧ n0.index = hsec.index
+      ∧ n0.hash = (RefTree.node C bs d o).2
+      ∧ (n0.length = (RefTree.node C bs d o).1 → ∀ n ∈ rest, ∃ dn on, n = RefTree.nodeAt C bs dn on) :=
+  SeekSound.hash_proof_sound C bs t f pk p hsec cs hb hh hs hu (CreateTotal.canon_of_lt _ (by omega)) hauth hv
+
+/-- **block + seek proofs** (no upgrade): the block is the writer's, every node of the block section is the writer's,
+    and the seek section is authenticated through its root, which the block climb must consume as a sibling before it
+    ends: its bottom node carries the writer's hash, and if that node's size is the writer's, every node of the seek
+    section is the writer's node. -/
+theorem sound_block_seek (C : Crypto) (bs : Array Bytes) (t : Tree) (f : File) (pk : Bytes) (p : Proof) (b : Codec.DataBlock) (s : Codec.DataSeek)
+    (n0 : Codec.Node) (srest : List Codec.Node) (cs : Changeset) (hb : p.block = some b) (hs : p.seek = some s) (hsn : s.nodes = n0 :: srest)
+    (hu : p.upgrade = none) (hcan : n0.index < 2 ^ 64) (hauth : Sound.StoreAuthentic C bs t f) (hv : t.verifyProof C f p pk = .ok cs) :
+    Sound.Collision C ∨ (b.value = bs.getD b.index [] ∧ (∀ n ∈ b.nodes, ∃ dn on, n = RefTree.nodeAt C bs dn on)
+      ∧ ∃ d o, n0.index = Flat.index d o ∧ n0.hash = (RefTree.node C bs d o).2
+        ∧ (n0.length = (RefTree.node C bs d o).1 → ∀ n ∈ srest, ∃ dn on, n = RefTree.nodeAt C bs dn on)) :=
+  SeekSound.block_seek_sound C bs t f pk p b s n0 srest cs hb hs hsn hu (CreateTotal.canon_of_lt _ (by omega)) hauth hv
 
 end HC.C04
